@@ -63,6 +63,13 @@ def run(prop, tier, seed, extra_assumptions=()):
         failed.update(f)
         for u in undec:
             vd.add_undecided(u)
+    vac = []
+    if tier == "thorough":
+        for unit, _fns in plan["units"]:
+            pr = D.run_vacuity_probes(ctx, unit)
+            vac.append(pr)
+            if pr["vacuous"]:
+                vd.add_undecided("vacuity: probes that should fail verify in unit %s: %s (contradictory requires/invariant?)" % (unit, pr["vacuous"][:5]))
     if plan.get("walker"):
         # panic-freedom of the tree search itself: the C01 proof obligations (unwrap sites of the walker included)
         from . import c01 as C01
@@ -96,6 +103,9 @@ def run(prop, tier, seed, extra_assumptions=()):
     cov["checker_cmd"] = "; ".join(c.get("checker_cmd") or "" for c in covs)
     cov["functions_under_contract"] = sorted(set(sum([c.get("functions_under_contract", []) for c in covs], [])))
     cov["functions_bounded_only"] = plan.get("bounded_fns", [])
+    if vac:
+        cov["vacuity_probes"] = {"expected_to_fail": sum(p["expected"] for p in vac), "failed_as_expected": sum(p["failed_as_expected"] for p in vac),
+                                 "per_unit": {p["unit"]: [p["expected"], p["failed_as_expected"]] for p in vac}}
     assumptions = list(D.STANDING_TRUST) + DET_TRUST + list(extra_assumptions)
     if plan.get("bounded_fns"):
         assumptions.append("NOT under a Verus contract, decided only by the bounded native check (labelled bounded, never counted in `discharged`): " + ", ".join(plan["bounded_fns"]))
